@@ -463,6 +463,10 @@ func witnesses() []genInput {
 		}
 		return Decl{P: p, V: vals, Sp: sp, I: imp}
 	}
+	// an inset shorthand with a max() value, lowered for a target without inset; the !important longhand makes the
+	// input's winner differ from the lowered `left` wherever the input is understood
+	w = append(w, genInput{ID: "witness-4", Items: []Item{
+		{K: "rule", Path: []PathEl{selEl(".c")}, Decls: []Decl{one("top", false, "mix"), one("left", true, "min12"), one("inset", false, "max12", "l1", "l2", "pct")}}}})
 	w = append(w,
 		// `&` inside a pseudo-class under a parent with a combinator (6bb4c85)
 		genInput{ID: "regress-0", Items: []Item{
